@@ -31,7 +31,7 @@ from simkit.logpump import Pumps  # noqa: E402
 from simkit.loop import SimLoop, SimStop, describe_pending  # noqa: E402
 from simkit.net import SimNet  # noqa: E402
 from simkit.sqlite import SimSqlite  # noqa: E402
-from simkit.world import Recorder, Seams  # noqa: E402
+from simkit.world import Recorder, Seams, seed_unseeded_rng  # noqa: E402
 
 _PLUGINS_CACHE: list[Any] | None = None
 _REAL_LOAD_PLUGINS = gplugin.load_plugins
@@ -98,6 +98,7 @@ class CmdWorld:
         s.set(glog, "QueueListener", self.pumps.make_class())
         s.set(logging, "time", TimeShim(self.wall))
         s.set(gplugin, "load_plugins", _cached_plugins)
+        seed_unseeded_rng(s, self.seed)
         s.set(server_mod, "traceback", _QuietTraceback(self))
         lg = logging.getLogger("gallia")
         self._old_handlers = lg.handlers[:]
